@@ -8,7 +8,7 @@ off_number of_money on_money off_money what_percent what_percent_zero what_perce
 total_from_percent_money phrase_of_1 phrase_of_2 phrase_on_1 phrase_on_2 phrase_off_1 phrase_off_2 phrase_what_percent
 phrase_total_from_percent""".split()]
 RULE = ("the seven phrases x both operand orders x both percent spellings x X/A/B/p from value classes {0, small, large, "
-        "fractions with 1-6 digits, negative} x plain / money in every currency that has a rate; non-trivial = the phrase "
+        "fractions with 1-6 digits, negative; integer parts of four and more digits with and without the thousands separator} x plain / money in every currency that has a rate; non-trivial = the phrase "
         "evaluated to a value (not an error) and at least one operand is non-zero; distinct = distinct line texts")
 ASSUMPTIONS = ["formula theorems are over exact rationals; the implementation's doubles are compared with the exact value "
                "with relative tolerance 1e-9, and bit-for-bit with the Float instance of the model"]
@@ -25,8 +25,25 @@ def currencies():
     return CURS
 
 
+def lit(rng, s):
+    """the literal in the default convention; an integer part of four and more digits is sometimes written with the thousands
+    separator ('1.000,5', '2.000.000')"""
+    t = O.dec(s)
+    sign = "-" if t.startswith("-") else ""
+    body = t[len(sign):]
+    ip, _, fp = body.partition(",")
+    if len(ip) > 3 and ip.isdigit() and rng.random() < 0.5:
+        g = []
+        while len(ip) > 3:
+            g.insert(0, ip[-3:])
+            ip = ip[:-3]
+        g.insert(0, ip)
+        ip = ".".join(g)
+    return sign + ip + ("," + fp if fp else "")
+
+
 def pct_text(rng, p):
-    return (O.dec(p) + "%") if rng.random() < 0.6 else ("%" + O.dec(p))
+    return (lit(rng, p) + "%") if rng.random() < 0.6 else ("%" + lit(rng, p))
 
 
 def gen_case(rng):
@@ -39,8 +56,8 @@ def gen_case(rng):
 
     def amt(s):
         if cur is None:
-            return O.dec(s)
-        return O.dec(s) + rng.choice([" ", ""]) + (cur if rng.random() < 0.7 else cur.upper())
+            return lit(rng, s)
+        return lit(rng, s) + rng.choice([" ", ""]) + (cur if rng.random() < 0.7 else cur.upper())
     order = rng.random() < 0.5
     if phrase == "plus":
         text = f"{amt(x)} + {pct_text(rng, p)}"
